@@ -659,9 +659,12 @@ def check_bounds(desc, ctx):
             return
         box[name] = (lo, hi)
         guess[name] = lo + desc["u"][k % 4] * (hi - lo)
-    kw = {"param_bounds": box}
+    # the dictionaries are keyed by name: the order in which the caller wrote the keys means nothing
+    order = {0: list(names), 1: list(reversed(names)), 2: sorted(names), 3: sorted(names, reverse=True)}[int(d["rng"]) % 4]
+    kw = {"param_bounds": {n: box[n] for n in order}}
     if desc["guess"] == "user":
-        kw["param_guess"] = guess
+        kw["param_guess"] = {n: guess[n] for n in reversed(order)}
+    ctx.label("key_order_as_declared" if order == names else "key_order_other")
     try:
         mi = _fit("arrays", p, l, model, meta, **kw)
     except CalculationError:
